@@ -1,5 +1,6 @@
 import Dtr.Proofs.Run
 import Dtr.Proofs.ScopeDiscipline
+import Dtr.Proofs.KeysOK
 /-!
 # C01 — control flow and variables determine exactly which rows run, and in what order
 
@@ -133,5 +134,85 @@ example : ((execBlock exDev 20 exProg ⟨{ rng := default }, (), []⟩).map
     (fun σ => σ.log.map (fun r => (r.entries, r.line)))) =
     some [([.num 2], 4), ([.num 3], 4), ([.num 2], 9)] := by
   decide
+
+/-- the body leaves the loop's counter alone: run from a (well-formed) state in which the counter has
+just been set to `i`, it ends in a state in which the name still looks up to `i` -/
+def KeepsCounter (D : Device W) (var : String) (body : List Stmt) : Prop :=
+  ∀ fuel (σ σ' : Sys W) (i : Int64), σ.ctx.vars.Inv → Scopes.KeysOK σ.ctx.scopes →
+    execBlock D fuel body { σ with ctx := σ.ctx.set var i } = some σ' → σ'.ctx.get var = some (.val i)
+
+/-- **A sufficient syntactic condition**: a body that never writes `let var = …` at its own level
+(nor inside `while`s at that level — what nested loops bind is gone when they close) keeps the counter. -/
+theorem C01_noAssign_keeps_counter (D : Device W) (hD : D.KeepsVars) (var : String) (body : List Stmt)
+    (hna : Stmts.NoAssign var body) : KeepsCounter D var body := by
+  intro fuel σ σ' i hinv hk h
+  have hi2 : (σ.ctx.set var i).vars.Inv := (scopes_set σ.ctx var i hinv).1
+  have := (lkeep D hD var fuel).block body { σ with ctx := σ.ctx.set var i } σ' hi2 hna h
+  exact get_of_lk _ _ _ (this.trans (lk_set_self σ.ctx var i hinv hk))
+
+/-- the `for` reading of a loop: the body runs with the counter set to `i`, then to `i+1`, … as long
+as the next value is below `n`, then the scope is closed; `k` counts the passes -/
+inductive ForRun (D : Device W) (var : String) (n : Int64) (body : List Stmt) : Nat → Int64 → Sys W → Sys W → Prop where
+  | last {fuel i σ σ2} : execBlock D fuel body { σ with ctx := σ.ctx.set var i } = some σ2 → ¬ (i + 1 < n) →
+      ForRun D var n body 1 i σ { σ2 with ctx := σ2.ctx.popFrame }
+  | next {fuel k i σ σ2 σ'} : execBlock D fuel body { σ with ctx := σ.ctx.set var i } = some σ2 → i + 1 < n →
+      ForRun D var n body k (i + 1) σ2 σ' →
+      ForRun D var n body (k + 1) i σ σ'
+
+theorem satSucc_lt (i n : Int64) (h : i < n) : satSucc i = i + 1 := by
+  unfold satSucc
+  split
+  · next he =>
+    subst he
+    exfalso
+    have := Int64.le_maxValue n
+    exact absurd h (Int64.not_lt.mpr this)
+  · rfl
+
+/-- **The `for` reading**: when the body leaves the counter alone, `loop(v, n)` runs its body once for
+each counter value from the current one up to `n - 1`, in order — each pass starting from the state
+the previous one left, with only the counter advanced — and then closes its scope. -/
+theorem C01_for_loop (D : Device W) (hD : D.KeepsVars) (var : String) (n : Int64) (body : List Stmt)
+    (hk : KeepsCounter D var body) :
+    ∀ (fuel : Nat) (σ σ' : Sys W) (i : Int64), σ.ctx.vars.Inv → Scopes.KeysOK σ.ctx.scopes → i < n →
+      loopIter D fuel var n body { σ with ctx := σ.ctx.set var i } = some σ' → ∃ k, ForRun D var n body k i σ σ'
+  | 0, σ, σ', i, _, _, _, h => by simp [loopIter] at h
+  | fuel+1, σ, σ', i, hinv, hko, hlt, h => by
+    simp only [loopIter] at h
+    cases hb : execBlock D fuel body { σ with ctx := σ.ctx.set var i } with
+    | none => simp [hb] at h
+    | some σ2 =>
+      simp only [hb] at h
+      have hg2 := hk fuel σ σ2 i hinv hko hb
+      simp only [hg2, satSucc_lt i n hlt] at h
+      have hi1 : (σ.ctx.set var i).vars.Inv := (scopes_set σ.ctx var i hinv).1
+      have hk1 : Scopes.KeysOK (σ.ctx.set var i).scopes := keysOK_ctx_set σ.ctx var i hinv hko
+      have hi2 := ((discipline D hD fuel).block body _ σ2 hi1 hb).1
+      have hk2 := (kdisc D hD fuel).block body _ σ2 hi1 hk1 hb
+      by_cases hn : i + 1 < n
+      · simp only [hn, if_true] at h
+        obtain ⟨k, hr⟩ := C01_for_loop D hD var n body hk fuel σ2 σ' (i + 1) hi2 hk2 hn h
+        exact ⟨k + 1, .next hb hn hr⟩
+      · simp only [hn, if_false, Option.some.injEq] at h
+        subst h
+        exact ⟨1, .last hb hn⟩
+
+/-- the whole statement: bound evaluated once; nothing when it is `≤ 0`; otherwise a scope is opened
+and the passes run for the counter values `0, 1, …` -/
+theorem C01_loop_is_for (D : Device W) (hD : D.KeepsVars) (fuel : Nat) (var : String) (max : Expr) (body : List Stmt)
+    (σ σ' : Sys W) (n : Int64) (c' : Ctx) (hk : KeepsCounter D var body) (hinv : σ.ctx.vars.Inv)
+    (hko : Scopes.KeysOK σ.ctx.scopes) (he : evalE max σ.ctx = .ok (n, c')) (hn : ¬ n ≤ 0)
+    (h : execStmt D (fuel + 1) (.loop var max body) σ = some σ') :
+    ∃ k, ForRun D var n body k 0 { σ with ctx := c'.pushFrame } σ' := by
+  rw [C01_loop_entry D fuel var max body σ n c' he hn] at h
+  have hv := (evalE_vars he).1
+  have hinv' : c'.vars.Inv := by rw [hv]; exact hinv
+  exact C01_for_loop D hD var n body hk fuel { σ with ctx := c'.pushFrame } σ' 0 (FMap.inv_push c'.vars hinv')
+    (keysOK_ctx_push c' (keysOK_of_vars_eq hv hko)) (Int64.not_le.mp hn) h
+
+/-- non-vacuity: a body of two rows and a `let` of another name keeps the counter `i` -/
+example (D : Device W) (hD : D.KeepsVars) :
+    KeepsCounter D "i" [.row [.num 1] 3, .letS "a" (.var "i"), .row [.expr (.var "a")] 5] :=
+  C01_noAssign_keeps_counter D hD "i" _ (by simp [Stmts.NoAssign, Stmt.NoAssign])
 
 end Dtr
